@@ -260,7 +260,10 @@ class WrapTask(Task):
 
 
 def tasks(tier):
-    return [WrapTask("find"), WrapTask("getmove")]
+    from contracts.assoc_abort import AbortTask, NoResponseTask
+    # "fail cleanly": the wrappers and send_* methods call _handle_no_response / abort(); what those two do is under contract here
+    from contracts.acse_neg import SendAbortTask
+    return [WrapTask("find"), WrapTask("getmove"), NoResponseTask("C24/"), AbortTask("C24/"), SendAbortTask("abort", "C24/")]
 
 
 def replay(rec):
